@@ -138,4 +138,19 @@ func runC16(c *ctx) {
 		b.do(srv, "POST", "http://sso.example.com/oauth2/session/refresh", nil)
 		take("S")
 	}
+	// (c) the SSO server reached under a Host that is NOT (literally) under the SSO domain - relayed by a proxy to a cluster-internal address, an IP, a Host with
+	// a port: whatever cookie it sets or clears there is still scoped to the SSO domain (otherwise a domain-wide cookie is never cleared / a host-only one is set)
+	for _, host := range []string{"sso.example.com", "sso.example.com:8443", "SSO.EXAMPLE.COM", "wonderwall-sso.team.svc.cluster.local", "10.0.0.7:8080", "example.com", "example.com:80", "localhost:3000"} {
+		for _, op := range []string{"/oauth2/login", "/oauth2/logout", "/oauth2/logout/local", "/oauth2/logout/frontchannel?sid=sid-1&iss=" + url.QueryEscape(s.idp.issuer), "/oauth2/callback?code=x&state=y", "/oauth2/logout/callback?state=z", "/oauth2/session"} {
+			hb := newBrowser()
+			if jc := b.get(cookie.Session); jc != nil {
+				hb.extra = http.Header{"Cookie": {jc.Name + "=" + jc.Value}} // presented whatever the host (the relaying proxy copies the Cookie header)
+			}
+			resp := hb.do(srv, "GET", "http://"+host+op, http.Header{"Sec-Fetch-Mode": {"navigate"}, "Sec-Fetch-Dest": {"document"}})
+			for _, ck := range resp.Cookies {
+				c.count("ssocookie:" + fmtVal(ck.Domain != ""))
+				c.emit("ssocookie", "host", hx(host), "op", hx(op), "status", resp.Status, "name", hx(ck.Name), "domain", hx(ck.Domain), "clear", ck.MaxAge < 0, "ssodomain", hx("example.com"))
+			}
+		}
+	}
 }
